@@ -344,6 +344,10 @@ func c07(c *Ctx) {
 	// the verification both sides run (chain to the given pool, nonce as DNS name, expected key): C02's rule, evaluated here too
 	c.R.Rule("R-C02.1", "VerifyConnection closure of tls.standardTlsConfig (C02's rule, evaluated here: the client relies on it to reject foreign roots and certificates minted for another nonce)")
 	c02Verify(c)
+	if _, G := listenerClosure(c, "R-C02.2"); G != nil {
+		c.R.Rule("R-C02.2", "the verification waiver option WithAlpnProtoPrefix(<fetch prefix>) is built only in the listener's fetch branch (C02's rule, evaluated here: on the node side the same option would switch off chain, nonce and key checks)")
+		c02WaiverSites(c, G, "R-C02.2")
+	}
 }
 
 // c07ClientCert checks the certificate-selection callback installed by
